@@ -40,7 +40,8 @@ KINDS = ["dangling", "loop", "fifo", "socket", "dotdot", "backslash", "stat-ENOE
          "dot-fifo", "vanish-any", "vanish-sidecar", "sidecar-socket", "sidecar-dangling",
          "sidecar-fifo", "cache-fifo", "cache-socket", "cache-dangling", "cache-dir", "dot-loop", "dot-stat-EACCES", "dot-stat-EIO", "dot-stat-ELOOP", "stat-ELOOP",
          "cap-fifo", "cap-socket", "cap-dangling", "zipcache-fifo", "zipcache-socket", "zip-emptylink",
-         "zip-badlinks", "gmap-vanish", "gmap-stat-EACCES", "gmap-stat-ENOENT"]
+         "zip-badlinks", "gmap-vanish", "gmap-stat-EACCES", "gmap-stat-ENOENT",
+         "gmapname-socket", "gmapname-fifo", "gmapname-dir", "gmapname-dangling", "gmapname-loop"]
 # kinds that need the ZIP handler in the chain / a gophermap in the directory
 ZIP_KINDS = ("zipcache-fifo", "zipcache-socket", "zip-emptylink", "zip-badlinks")
 GMAP_KINDS = ("gmap-vanish", "gmap-stat-EACCES", "gmap-stat-ENOENT")
@@ -49,6 +50,8 @@ PREFIXES = ["0", "a", "m", "zz", "B"]
 
 def _bad_entry(rng, kind, pre, i):
     base = rng.choice(PREFIXES) + "bad%d" % i
+    if rng.random() < 0.2:
+        base += rng.choice(["\udcae", "\udcff\udcfe", "-\u00e9\u0301"])     # not UTF-8 on disk / not NFC
     ent = []
     faults = []
     if kind == "dangling":
@@ -168,6 +171,17 @@ def _bad_entry(rng, kind, pre, i):
             faults.append({"op": "stat", "rel": pre + name, "kind": "vanish", "nth": rng.choice([1, 1, 2])})
         else:
             faults.append({"op": "stat", "rel": pre + name, "kind": kind[10:], "nth": rng.choice([1, 1, 2])})
+    elif kind.startswith("gmapname-"):
+        # the entry that cannot be served is called 'gophermap' (the name that turns a directory into a
+        # Bucktooth menu when it is a regular file)
+        name = "gophermap"
+        k2 = kind[9:]
+        if k2 in ("socket", "fifo", "dir"):
+            ent.append({"p": pre + name, "k": k2})
+        elif k2 == "dangling":
+            ent.append({"p": pre + name, "k": "symlink", "to": "nowhere-" + base})
+        else:
+            ent.append({"p": pre + name, "k": "symlink", "to": name})
     elif kind == "dot-loop":
         name = "." + base
         ent.append({"p": pre + name, "k": "symlink", "to": name})
@@ -204,6 +218,9 @@ def gen(seed, index, tier):
     faults = []
     if sum(1 for k in kinds if k.startswith("cache-")) > 1:
         kinds = [kinds[0]] + ["fifo" if k.startswith("cache-") else k for k in kinds[1:]]
+    if sum(1 for k in kinds if k.startswith("gmapname-")) > 1 or (
+            any(k.startswith("gmapname-") for k in kinds) and any(k in GMAP_KINDS for k in kinds)):
+        kinds = [kinds[0]] + ["socket" if (k.startswith("gmapname-") or k in GMAP_KINDS) else k for k in kinds[1:]]
     if sum(1 for k in kinds if k.startswith("cap-")) > 1:
         kinds = [kinds[0]] + ["socket" if k.startswith("cap-") else k for k in kinds[1:]]
     for j, k in enumerate(kinds):
@@ -305,7 +322,7 @@ def execute(sc, tape=None):
             hits = sorted(h for h in hits if h[0] >= 0)
             culprit = hits[0][1] if hits else "+".join(sorted(set(sc["kinds"])))
             if not c.server_done():
-                viol = {"oracle": "answered", "signature": {"oracle": "answered", "kind": ("cache-fifo" if "cache-fifo" in sc["kinds"] else "zipcache-fifo" if "zipcache-fifo" in sc["kinds"] else "cap-fifo" if "cap-fifo" in sc["kinds"] else "dot-fifo" if "dot-fifo" in sc["kinds"] else
+                viol = {"oracle": "answered", "signature": {"oracle": "answered", "kind": ("cache-fifo" if "cache-fifo" in sc["kinds"] else "zipcache-fifo" if "zipcache-fifo" in sc["kinds"] else "gmapname-fifo" if "gmapname-fifo" in sc["kinds"] else "cap-fifo" if "cap-fifo" in sc["kinds"] else "dot-fifo" if "dot-fifo" in sc["kinds"] else
                                                                    "sidecar-fifo" if "sidecar-fifo" in sc["kinds"] else culprit),
                                                           "why": "connection never answered (worker blocked)"},
                         "detail": "state=%s blocked=%s" % (st, [a.label for a in run.sim.actors if a.state == "blocked"])}
@@ -333,7 +350,7 @@ def execute(sc, tape=None):
             counters = common.run_counters(run)
             if inconclusive:
                 counters["unparsed_success_no_verdict"] = 1
-        special = any(k.startswith(("cache-", "cap-", "zipcache-", "zip-")) or k in ("dot-loop", "dangling", "loop", "fifo", "socket", "dotdot", "backslash",
+        special = any(k.startswith(("cache-", "cap-", "zipcache-", "zip-", "gmapname-")) or k in ("dot-loop", "dangling", "loop", "fifo", "socket", "dotdot", "backslash",
                             "dot-dangling", "dot-socket", "dot-fifo", "sidecar-socket",
                             "sidecar-dangling", "sidecar-fifo") for k in sc["kinds"])
         if special and counters.get("fs_listdir", 0):
